@@ -96,8 +96,9 @@ func runC01(t fataler, c c01Case) (string, c01Result) {
 		rerr  string
 		wdone <-chan struct{}
 		rdone <-chan struct{}
-		all   chan struct{} // closed when every expected message has been read
-		extra string
+		all    chan struct{} // closed when every expected message has been read
+		extra  string
+		endErr error // what the final Read (the one that sees the end of the connection) returned
 	}
 	dirs := []*dir{{name: "client->server", ops: c.ToSrv}, {name: "server->client", ops: c.ToCl}}
 	startWriter := func(d *dir) {
@@ -233,7 +234,9 @@ func runC01(t fataler, c c01Case) (string, c01Result) {
 			close(d.all)
 			// keep reading until the connection is closed: the peer's Pings are answered
 			// from here, and nothing that was never written may arrive
-			if _, b, err := d.to.Read(ctx); err == nil {
+			_, b, err := d.to.Read(ctx)
+			d.endErr = err
+			if err == nil {
 				d.extra = fmt.Sprintf("%s: an extra message of %d bytes arrived that was never written", d.name, len(b))
 			}
 		})
@@ -259,7 +262,8 @@ func runC01(t fataler, c c01Case) (string, c01Result) {
 		return "library panicked: " + ps[0], res
 	}
 	// nothing extra must arrive: both sides close cleanly
-	cd := e.Call(func() { pr.Cl.Close(websocket.StatusNormalClosure, "") })
+	var closeErr error
+	cd := e.Call(func() { closeErr = pr.Cl.Close(websocket.StatusNormalClosure, "") })
 	if !within(cd, 60*time.Second) {
 		return "closing after the exchange did not finish", res
 	}
@@ -273,6 +277,14 @@ func runC01(t fataler, c c01Case) (string, c01Result) {
 		if d.extra != "" {
 			return d.extra, res
 		}
+	}
+	// the streams end cleanly: the server sees the client's normal closure (whatever the
+	// transport did to the Close frame's bytes) and the client's Close sees it echoed
+	if got := websocket.CloseStatus(dirs[0].endErr); got != websocket.StatusNormalClosure {
+		return fmt.Sprintf("after the exchange the client closed with status 1000, but the server's Read ended with %v", dirs[0].endErr), res
+	}
+	if closeErr != nil {
+		return fmt.Sprintf("after the exchange the client's Close(1000) returned %v although the server is the library and echoes", closeErr), res
 	}
 	// classification from the wire tap (never part of the verdict)
 	for i, wire := range [][]byte{pr.ClientWire(), pr.ServerWire()} {
